@@ -116,6 +116,9 @@ def _closure(tu, roots):
     return seen
 
 
+PRELOAD_C = ['miasm/jitter/vm_mngr.c', 'miasm/jitter/vm_mngr_py.c', 'miasm/jitter/JitCore.c']
+
+
 def run(ck):
     tu = cast.load(ck.repo, VMC)
     PR, PW = tu.macro_int("PAGE_READ"), tu.macro_int("PAGE_WRITE")
